@@ -90,4 +90,25 @@ CHECKS = {
         "note": COMMON_NOTE + "RectBivariateSpline and DataFrame.to_string are external (contract measured at nodes; stdout parsed at display.precision 17).",
         "technique": "Lean 4 theorems (first-minimum invariant, list/dict lemmas, decide +kernel) + differential correspondence through click.testing.CliRunner + independent numpy oracle",
     },
+    "C05": {
+        "text": "Static part, decomposition and wiring proved on the executable model: the model's fit satisfies the normal equations (checked "
+                "exactly over Rat), hence is the least-squares cubic, and is exact on cubics; total = static[v] + phonon[t][v] at every grid "
+                "point; the phonon part is independent of the table and the static part of T; strain triples sum to 1 (equal thirds without "
+                "a lattice block); GPa->Ry/bohr^3 and numpy.gradient semantics. The model runs over Rat on the arrays the real Calculator had "
+                "(synthetic files, all nine crystal systems, +/- lattice) and is compared at 1e-7; an independent reference rebuilt from the "
+                "files checks grid, keys, total-static = task-list output, a metamorphic table alteration, strain fractions, static pressure "
+                "and the mode-parameter order.",
+        "note": COMMON_NOTE + "qha's grid and strains enter as data (the oracle recomputes them); the phonon value itself is C01-C04's subject; "
+                "the symmetry filling is C08/C09's; numpy.polyfit optimality is measured per case as a contract.",
+        "technique": "Lean 4 theorems over ordered fields with certificate-checked exact least squares; Rat-run model/code correspondence; independent numpy/long-double oracle from files with a metamorphic second run",
+    },
+    "C06": {
+        "text": "Proved: the 4-point Lagrange rule is exact for every cubic in P, so v2p(P_tv)=requested pressures, and returns tabulated values "
+                "at nodes; qha's bisection brackets the target (loop invariant), also on the padded row; cij's range check accepts exactly "
+                "the grids <= P(T,V_last) for every T, for all P_MIN, DELTA_P, NTV; every pressure-base name routes through the same "
+                "(P_tv, p_array). PARTIAL (monitored, not proved): the size of the interpolation error, P(T,V(T,P))=P and V(T,P) decreasing "
+                "for non-polynomial isotherms, checked against a 6-point local reference within the divided-difference bound.",
+        "note": COMMON_NOTE + "P(T,V) and the volume-base arrays are taken from the real run; the bound is widened x10 in the two outermost grid intervals.",
+        "technique": "Lean 4 theorems (functional induction on the bisection, field_simp/ring); Float-run correspondence at 1e-10; numpy-only oracle incl. a v2p call counter for 'rejected before any conversion'",
+    },
 }
